@@ -23,6 +23,7 @@ CC_NOTE = ("Theorems are about the Lean model (GoCo/Compile/*.lean) of the rewri
 
 PROPS = {
     "C08": {
+        "facts": ["G_seq_seq", "Assumptions"],
         "module": "GoCo.Props.C08",
         "theorems": [
             "GoCo.machine_refines_ref", "GoCo.genRun_refines",
@@ -41,6 +42,7 @@ PROPS = {
                     "thunks are arbitrary Lean functions; Go closures, allocation and the call stack are not modelled",
     },
     "C09": {
+        "facts": ["G_seq_seq", "Assumptions"],
         "module": "GoCo.Props.C09",
         "theorems": [
             "GoCo.genStep_refines", "GoCo.genRun_refines",
@@ -58,6 +60,7 @@ PROPS = {
         "modelled": "seq/seq.go 176-231 (generator{started,next,current,result}, MoveNext/Current/Send/Result) over the machine",
     },
     "C01": {
+        "facts": ["G_rewriter_yield_rewrite", "G_rewriter_yield_block", "G_rewriter_yield_ast", "G_rewriter_return", "G_rewriter_etc", "G_rewriter_const", "G_rewriter_optimize", "G_seq_seq"],
         "module": "GoCo.Props.C01",
         "theorems": ["GoCo.C01.C01_partial", "GoCo.MG.compile_correct_partial", "GoCo.MG.compile_eta_correct_partial",
                      "GoCo.MG.rwStmts_ok", "GoCo.MG.p3Thunk_sem", "GoCo.MG.p0Stmts_sem", "GoCo.MG.etaStmts_sem",
@@ -71,6 +74,7 @@ PROPS = {
         "modelled": "rewriter/yield_rewrite.go, yield_block.go, return.go, yield_ast.go, optimize.go as Lean functions over a mini-Go AST (mode A: atoms A/P/V/C/T over a VM); go/types, go/packages, printing and the Go semantics of the generated code are not modelled",
     },
     "C07": {
+        "facts": ["G_rewriter_optimize", "G_rewriter_compile"],
         "module": "GoCo.Props.C07",
         "theorems": ["GoCo.C07.C07_eta_sound", "GoCo.MG.etaStmts_sem", "GoCo.MG.etaSExp_sem", "GoCo.MG.etaThunk_sem"],
         "corr": [("cc", "k5"), ("cc", "k6d"), ("cc", "k6c")],
@@ -82,6 +86,7 @@ PROPS = {
         "modelled": "rewriter/optimize.go (optimizeDelayCall, etaReduction) on the mini-Go target AST; import clean-up is not modelled",
     },
     "C11": {
+        "facts": ["G_rewriter_yield_rewrite", "G_rewriter_yield_block", "G_rewriter_yield_ast", "G_rewriter_return", "G_rewriter_etc", "G_rewriter_const", "G_rewriter_compile", "G_rewriter_rewrite"],
         "module": "GoCo.Props.C01",
         "theorems": ["GoCo.MG.p0Stmts_sem"],
         "corr": [("cc", "k4"), ("cc", "k6e")],
@@ -93,6 +98,7 @@ PROPS = {
         "modelled": "all assert/panic sites of rewriter/yield_rewrite.go, yield_block.go, return.go, etc.go reachable from the mode-A grammar",
     },
     "C02": {
+        "facts": ["G_seq_seq", "Assumptions", "G_rewriter_yield_rewrite", "G_rewriter_yield_block", "G_rewriter_optimize"],
         "module": "GoCo.Props.C02",
         "theorems": ["GoCo.C02.C02_start_runs_nothing_runtime", "GoCo.C02.C02_compile_shape", "GoCo.C02.C02_construct_pure",
                      "GoCo.C02.C02_advance_lockstep", "GoCo.C02.C02_lockstep_partial", "GoCo.genRun_refines",
@@ -106,6 +112,7 @@ PROPS = {
         "modelled": "seq/seq.go (machine + generator object), rewriter passes; absence of background activity in seq is a source fact",
     },
     "C18": {
+        "facts": ["G_seq_seq", "Assumptions", "G_rewriter_yield_rewrite", "G_rewriter_optimize"],
         "module": "GoCo.Props.C18",
         "theorems": ["GoCo.C18.C18_panic_surfaces", "GoCo.C18.C18_send_panic_surfaces", "GoCo.C18.C18_machine",
                      "GoCo.C18.C18_compiled_panics_partial", "GoCo.machine_refines_ref", "GoCo.genStep_refines"],
@@ -118,6 +125,7 @@ PROPS = {
         "modelled": "Go panics as a result value of thunks/conditions/atoms; recover is absent from seq (source fact)",
     },
     "C10": {
+        "facts": ["G_seq_iter"],
         "module": "GoCo.Props.C10",
         "theorems": ["GoCo.C10.C10_string", "GoCo.C10.C10_int", "GoCo.C10.C10_wrapper", "GoCo.C10.C10_progress",
                      "GoCo.Iters.strIter_eq_range", "GoCo.Iters.intIter_eq_range", "GoCo.Iters.wrapIter_eq_runtime"],
@@ -130,6 +138,7 @@ PROPS = {
         "modelled": "seq/iter.go integerIter, stringIter, map/chan wrappers; unicode/utf8 as a Lean function; reflect.MapIter and channel receive as parameters",
     },
     "C17": {
+        "facts": ["G_seq_seq"],
         "module": "GoCo.Props.C17",
         "theorems": ["GoCo.C17.C17_cex_depth_grows", "GoCo.C17.loop_steps", "GoCo.C17.C17_frames_are_transitions",
                      "GoCo.runFast_eq_run"],
@@ -140,5 +149,18 @@ PROPS = {
         "technique": "Lean 4 frame-count model of seq.go (depth = machine transitions) with a proved counterexample + exact depth-profile correspondence against runtime.Callers",
         "design_ref": "DESIGN.md 6/C17",
         "modelled": "the call structure of seq/seq.go: one frame per machine transition, thunks/conditions return before the next call",
+    },
+    "C14": {
+        "facts": ["G_seq_seq", "G_seq_iter", "Assumptions"],
+        "module": "GoCo.Props.C14",
+        "theorems": ["GoCo.C14.C14_interleave_independent", "GoCo.C14.C14_ref_inl", "GoCo.C14.C14_frame",
+                     "GoCo.ref_inl", "GoCo.absStep_inl", "GoCo.genRun_refines"],
+        "corr": [("k1", None), ("k1i", None), ("race", None)],
+        "search": [],
+        "level_text": "Kernel-checked: an iterator whose code touches only its own part of the store behaves, under ANY interleaving with arbitrary activity on the rest of the store (the operations of any number of other iterators), exactly as when consumed alone - all terms, all operation sequences. The models have no state shared between iterators by construction; that the real seq package has none (no package-level variable, sync, goroutine, recover) is a source fact re-proved on every run. K1i runs every interleaving of 2-3 real iterators (3/2 steps each, same and different terms, own stores) against each iterator alone; the race stage consumes string/int/slice/map iterators and combinator terms on parallel goroutines under the Go race detector.",
+        "level_note": RT_NOTE + " Partial: data races belong to the Go memory model and cannot be exhibited by a sequential model; the -race run is supporting evidence, not the proof.",
+        "technique": "Lean 4 frame/independence theorem over product stores + source facts (no shared state in seq) + exhaustive small interleavings and -race runs of the real iterators",
+        "design_ref": "DESIGN.md 6/C14",
+        "modelled": "seq/seq.go generator object and machine (per-iterator state only); goroutines and the memory model are not modelled",
     },
 }
